@@ -190,6 +190,24 @@ PROPS = {
                         "numbers with a standard uncertainty, and quoted numbers, are not generated for numeric columns",
                         "atom serial numbers are not stated by an mmCIF row; the specification numbers the atoms of a model from 0 in row order, as the reader does"],
     },
+    "C04": {
+        "translators": ["t5", "t2a", "t2b", "t2c"],
+        "count": {"quick": 80, "thorough": 800},
+        "rule": "structures built through the public API (Model::add_atom in nested order: 1-3 models of the same shape, 1-3 chains, residues "
+                "with insertion codes and negative numbers, 0-3 labelled alternate locations, hetero atoms, atoms with and without a known element, "
+                "charges, string atom ids, anisotropic tensors on every second structure); every atom number replaced by a finite value of "
+                "realistic magnitude with an arbitrary digit tail (integers, values exactly on a half of the fifth decimal, 1e-7-sized values, "
+                "negative values that round to zero); identifier, unit cell, one of the 230 space groups, scale, origx and 0-2 NCS operators present "
+                "or absent independently.  Written with save_mmcif_raw, read back at the three levels.  Observed: the bytes written (compared with "
+                "the writer model), the outcome of the re-read (compared with the reader model), acceptance, the round-trip verdict of the "
+                "specification on (original, re-read), and byte equality of a second write.  non-trivial = structure with more than one atom; "
+                "distinct = distinct case line",
+        "assumptions": ["structures are in the reader's normal form: no empty container, identifiers unique among siblings, distinct model numbers, "
+                        "no residue that mixes an unlabelled conformer with labelled ones (the reader redistributes those), identifier present, unit cell not the all-default cell",
+                        "identifiers are bare-word safe and not numeric in a non-canonical spelling (see the C02 finding)",
+                        "atom serial numbers, conformer modifications, remarks, database references and bonds are not written to mmCIF and are not compared",
+                        "magnitudes below 2^63 / 10^5 (print_float goes through isize)"],
+    },
     "C06": {
         "translators": ["t7", "t2a", "t2b", "t2c"],
         "profiles": ["release", "checked"],
